@@ -165,5 +165,10 @@ def run(ctx) -> str:
     ctx.guarded("F2", lambda: rule_f2(ctx))
     ctx.guarded("F3", lambda: rule_f3(ctx))
     ctx.guarded("F4", lambda: ctx.inventory.__setitem__("memo_sites", check_memo_keys(ctx, "F4-memo-key", [MUT, FUZZ])))
+    # the helpers the mutator and the fuzzers build their trees with: connecting trees (generalize_subtree -> path_to_tree), the canonical grammar, symbol classification
+    ctx.guarded("F7", lambda: ctx.inventory.__setitem__("helper_memo_sites", check_memo_keys(ctx, "F7-helper-memo-key", ["src/isla/existential_helpers.py", "src/isla/helpers.py"], min_sites=0)))
+    from . import c11
+
+    ctx.guarded("F8", lambda: c11.rule_b7(ctx))
     ctx.assume("asserts enabled; DerivationTree.replace_path changes only the addressed subtree (C16)")
     return EXPLANATION
